@@ -1,5 +1,6 @@
 Require Extraction.
 Require Import ExtrOcamlBasic.
-Require Import BertE.Base.Anchors BertE.Model.Git BertE.Model.Flow.
+Require Import BertE.Base.Anchors BertE.Model.Git BertE.Model.Flow BertE.Model.Gate.
 Extraction "../build/ocaml/C01/model.ml" anchor_types git_merge anc push_all_atomic push_names
-  merge_integration_ops merge_queues_ops merge_integration merge_queues add_to_queue add_to_queue_ops incl_b.
+  merge_integration_ops merge_queues_ops merge_integration merge_queues add_to_queue add_to_queue_ops incl_b
+  update_ops check_in_sync is_needed.
